@@ -44,34 +44,56 @@ _ADAPT = ['c_equal_fn_call:%s:%s:%s' % (m, rel, res) for m, rel, res in [
 _FLOOR_Q.update(execution_pairs=30000, pairs_agree_passing=8000, pairs_agree_failing=8000, output_buffers_compared=4000, data_readbacks_compared=5000)
 _FLOOR_Q.update((k, 20) for k in _ADAPT)
 _FLOOR_Q.update(c_equal_fn_same_object_judged_unequal=200, c_equal_fn_distinct_objects_judged_equal=200)
+# kept handles: support-level operations of another scope issued inside an actual-call chain, and what was then read through the handle
+_KEPT = {'kept_handle_getters_judged_after_other_scope_selected': 5000, 'kept_handle_returnValue_judged:call-with-return-value': 1500,
+         'kept_handle_returnValue_judged:empty-value': 500, 'kept_handle_typed_getter_judged:non-zero': 1000,
+         'getter_observed:actual.returnValue:other-scope-selected': 2000,
+         'handle_kept_across:getData:other-scope:before-getter': 2000, 'handle_kept_across:getData:other-scope:before-parameter': 500,
+         'handle_kept_across:setData:other-scope:before-getter': 1000, 'handle_kept_across:setData:other-scope:before-parameter': 300,
+         'handle_kept_across:expectedCallsLeft:other-scope:before-getter': 1000, 'handle_kept_across:expectedCallsLeft:other-scope:before-parameter': 300,
+         'handle_kept_across:getData:own-scope:before-getter': 200}
+_KEPT.update(('getter_observed:actual.typed.%s:other-scope-selected' % t, 50) for t in
+             ['bool', 'int', 'uint', 'long', 'ulong', 'llong', 'ullong', 'double', 'string', 'ptr', 'cptr', 'fptr'])
+_FLOOR_Q.update(_KEPT)
 _FLOOR_T = dict((s, 200) for s in _SLOTS)
+_FLOOR_T.update((k, 2 * v) for k, v in _KEPT.items())
 _FLOOR_T.update((k, 20) for k in _ADAPT)
 _FLOOR_T.update(c_equal_fn_same_object_judged_unequal=200, c_equal_fn_distinct_objects_judged_equal=200)
 _FLOOR_T.update(execution_pairs=500000, pairs_agree_passing=100000, pairs_agree_failing=100000, output_buffers_compared=20000, data_readbacks_compared=20000)
 
 P = dict(
     harness='c19_mockc.cpp',
-    variants=['asan'],
+    variants=['asan', 'memcheck'],
+    memcheck_stride=dict(quick=40, thorough=40),
     level='exploration',
     technique='runtime monitoring: differential oracle - every generated mocking scenario is executed twice in fresh fixture tests of identical '
               'identity, once through mock(scope) and once through mock_c()/mock_scope_c(scope) and the three C function tables; verdict, failure '
               'text, returned values with type tag, OrDefault results, output-parameter bytes, expectedCallsLeft and data-store read-back are '
-              'compared event by event; ASan/UBSan build',
+              'compared event by event; the C execution keeps MockActualCall_c handles across support-level operations of other scopes exactly where the C++ execution '
+              'keeps the MockActualCall reference; ASan/UBSan build + every 40th case under valgrind memcheck',
     rule='case = one scenario (list of statements: expectations with typed parameters / output parameters / return value, actual calls with '
          'return-value getters at call level and support level, strict order, ignore/disable/enable, data store, check, clear, comparators and '
-         'copiers drawn from the function families of custom_type_adaptor_table, the actual call passing the expectation\'s own object or its twin, typed outputs received into the returned object, crashOnFailure) executed through both interfaces. Sections: forwarder_table (enumerated: every parameter / return type x '
+         'copiers drawn from the function families of custom_type_adaptor_table, actual-call chains in which the handle is kept while the data store / expectedCallsLeft '
+         'of another (or the same) scope is consulted before a further parameter or before a return-value getter, the actual call passing the expectation\'s own object or its twin, typed outputs received into the returned object, crashOnFailure) executed through both interfaces. Sections: forwarder_table (enumerated: every parameter / return type x '
          'boundary lattice x getter x level, output-parameter kinds, tolerance, support-table operations), data_store_table (enumerated), '
          'support_getters_after_ignored_call (enumerated; defect D19, repaired in /repo, its reversal must fire here), custom_type_adaptor_table (enumerated: every member of a '
          'family of user equality functions - structural, non-reflexive, address identity, ordered/asymmetric, never, always with a zero low byte - x every ordered pair of '
          'pool objects including the same object on both sides x one / two candidate expectations x scope; every member of a family of copy functions - memcpy, converting - x '
-         'source object, the receiving buffer itself included), random_scenarios (seeded, about half of them failing), random_custom_type_scenarios (the same generator with comparators and copiers always in play and object parameters / typed outputs dominating). '
+         'source object, the receiving buffer itself included), kept_handle_table (enumerated: scope of the call x scope of the operation issued in mid-chain - every other scope, '
+         'the own scope as control - x getData / set*Data / expectedCallsLeft x before a parameter / before the getter x no return value / every return type x returnValue / typed getter / '
+         'hasReturnValue (observed, not judged, while another scope is selected) / support-level returnValue, each followed by one more returnValue() through the handle), random_scenarios (seeded, about half of them failing), random_custom_type_scenarios (the same generator with comparators and copiers always in play and object parameters / typed outputs dominating). '
          'Non-trivial = scenario with an integer value outside int range, or an output parameter, or a failing verdict; distinct by the full '
          'scenario text. Check counters and milliseconds are masked (C returnValue() converts through the checked getters).',
     floor=dict(quick=15000, thorough=250000),
     counter_floor=dict(quick=_FLOOR_Q, thorough=_FLOOR_T),
     assumptions=['LP64 (long = 64 bit, so the long / long long columns are distinct types of equal width)',
-                 'C-interface calls for two scopes are never interleaved inside one call chain (the C facade keeps one static current expected / actual call)',
-                 'return-value getters are only issued right after the actual call they read (the C facade reads its static actual-call pointer, which dangles after clear)',
+                 'C-interface calls for two scopes are never interleaved inside one call chain (the C facade keeps one static current expected / actual call), except for the '
+                 'data-store / expectedCallsLeft operations above, which create no expected or actual call',
+                 'return-value getters are only issued on the most recent actual call and before anything that creates or destroys an actual call (the C facade reads its static '
+                 'actual-call pointer, which moves with the next actualCall and dangles after clear); in between, the handle is kept across getData / set*Data / expectedCallsLeft of any scope',
+                 'while another scope than the call\'s is the selected one (mock_c() / mock_scope_c() called for it after the actual call), only returnValue() and the typed getters are read through '
+                 'the kept handle and judged: hasReturnValue() and the ...OrDefault getters of MockActualCall_c ask the currently selected mock support in the unchanged tree (they answer for '
+                 'the other scope\'s last call: counter unjudged:kept_handle_hasReturnValue_after_other_scope_selected:c-differs), which is the stateful-facade scoping of DESIGN section 5',
                  'removeAllComparatorsAndCopiers is only issued on the root scope while no expectation holds a C comparator node (the C facade owns one global node list)',
                  'C booleans are compared by truth value', 'NULL C strings and NULL object pointers are not generated',
                  'check counters are not compared'],
